@@ -631,11 +631,15 @@ func foreignCacheCase(id int, seed int64, out *json.Encoder) {
 	} else {
 		fs := &fakeS3{obj: map[string][]byte{}}
 		// two stores in one bucket, sometimes one of them without a prefix, sometimes without any cache in common
-		a := s3p.NewPersist(fs, "http://endpoint", "bucket", []string{"a/", ""}[rng.Intn(2)])
+		pa, pb := []string{"a/", ""}[rng.Intn(2)], "b/"
+		if rng.Intn(3) == 0 {
+			pa, pb = "node", "node/" // prefixes that differ only by a trailing slash are different stores
+		}
+		a := s3p.NewPersist(fs, "http://endpoint", "bucket", pa)
 		if rng.Intn(2) == 0 {
 			cache, nocache = nil, true
 		}
-		b := s3p.NewPersist(fs, "http://endpoint", "bucket", "b/")
+		b := s3p.NewPersist(fs, "http://endpoint", "bucket", pb)
 		p1, p2 = &a, &b
 	}
 	nk := 20 + rng.Intn(60)
